@@ -129,5 +129,9 @@ def run(ctx):
     tasks += [(f"O1O2:deltas:{'pino' if p else 'anchor'}:{'add' if s else 'remove'}", c08.deltas_task(p, s)) for p in (False, True) for s in (True, False)]
     tasks += [('O1O2:roundtrip', c08.roundtrip_task)]
     tasks += [t for t in c02.leaf_tasks() if t[0] in ('leaf:mul_shift_right', 'leaf:delta_a', 'leaf:delta_b')]
+    # O7: the swap loop hands every step's amounts and fee split on unchanged (ghost accounting I5/P5, wiring W0-W5: fee split on the step's liquidity, crossing with the
+    # growth updated so far) — Floyd verification of swap_manager::swap shared with C03
+    from props import c03
+    tasks += [c03.config_task(ei, ab, 'explicit', 0) for ei in (True, False) for ab in (True, False)]
     ctx.parallel(tasks, max_procs=8)
     ctx.run_kani(['c01.rs'])
